@@ -84,6 +84,11 @@ func runC03(k *kernel.K) {
 		}
 		stamp++
 		res.Header.Set("X-Resmod", fmt.Sprint(stamp))
+		// The property wants the Warning header to have passed through the response modifier:
+		// the modifier notes whether it saw one.
+		if res.Header.Get("Warning") != "" {
+			res.Header.Set("X-Resmod-Saw-Warning", "1")
+		}
 		return nil
 	}))
 
@@ -412,6 +417,8 @@ func c03Check(k *kernel.K, s *c03Sub, resps map[int]*RespSpec, attempts map[int]
 		}
 		if !first.Has("X-Resmod") {
 			k.Fail("C03.502_wellformed", map[string]string{"missing": "resmod"}, "%s: 502 did not pass through the response modifier", desc)
+		} else if first.Has("Warning") && !first.Has("X-Resmod-Saw-Warning") {
+			k.Fail("C03.502_wellformed", map[string]string{"missing": "warning_before_resmod"}, "%s: the 502's Warning header was added after the response modifier ran", desc)
 		}
 		if region == "body" {
 			// Failure after a complete head: a 502 is not what the origin said, but the
